@@ -281,6 +281,10 @@ struct Alloc {
     pos: usize,
     fat: HashMap<u32, u32>, // cluster -> value (28 bit)
     exhausted: bool,
+    /// total clusters of the volume: the usable set grows on demand so that the
+    /// requested tree always fits (the `low` figure is a minimum)
+    limit: u32,
+    scan: u32,
 }
 
 const EOC: u32 = 0x0FFF_FFFF;
@@ -290,8 +294,23 @@ impl Alloc {
         let mut v = Vec::new();
         for _ in 0..n {
             if self.pos >= self.order.len() {
-                self.exhausted = true;
-                break;
+                // extend the usable set with the lowest cluster not yet in it
+                let mut found = None;
+                while self.scan < self.limit + 2 {
+                    let c = self.scan;
+                    self.scan += 1;
+                    if !self.order.contains(&c) {
+                        found = Some(c);
+                        break;
+                    }
+                }
+                match found {
+                    Some(c) => self.order.push(c),
+                    None => {
+                        self.exhausted = true;
+                        break;
+                    }
+                }
             }
             v.push(self.order[self.pos]);
             self.pos += 1;
@@ -854,6 +873,8 @@ pub fn mkfs(spec: &DiskSpec) -> (Image, Vec<PVol>) {
             pos: 0,
             fat: HashMap::new(),
             exhausted: false,
+            limit: lay.clusters,
+            scan: 2,
         };
         let mut ctx = Ctx {
             lay: &lay.clone(),
@@ -877,12 +898,6 @@ pub fn mkfs(spec: &DiskSpec) -> (Image, Vec<PVol>) {
             let epc = lay.cluster_bytes() / 32;
             let nfill = fillers_for(used, v.root_pad_free, epc);
             let ncl = div_up((used + nfill).max(1), epc) + v.root_extra as u32;
-            // a late root takes its clusters from the end of the allocation order
-            let mut late_reserved: Vec<u32> = Vec::new();
-            if g.root_late {
-                let keep = ctx.alloc.order.len().saturating_sub(ncl as usize);
-                late_reserved = ctx.alloc.order.split_off(keep);
-            }
             let chain_early = if !g.root_late { ctx.alloc.chain(ncl) } else { vec![] };
             let (kids, bytes, l) = if g.root_late {
                 // children first, then the root chain; the root's own cluster is
@@ -891,19 +906,8 @@ pub fn mkfs(spec: &DiskSpec) -> (Image, Vec<PVol>) {
             } else {
                 ctx.build_dir(&root_slots, chain_early[0], 0, true, nfill, &root_times)
             };
-            let chain = if g.root_late {
-                let at = ctx.alloc.order.len();
-                ctx.alloc.order.extend(late_reserved.iter().copied());
-                let save = ctx.alloc.pos;
-                ctx.alloc.pos = at;
-                let c = ctx.alloc.chain(ncl);
-                ctx.alloc.pos = save;
-                // remove the root's clusters from the order again so that `free` is computed right
-                ctx.alloc.order.truncate(at);
-                c
-            } else {
-                chain_early
-            };
+            // a late root is allocated after everything else (so it starts at an arbitrary cluster)
+            let chain = if g.root_late { ctx.alloc.chain(ncl) } else { chain_early };
             assert!(!chain.is_empty(), "no cluster for FAT32 root");
             root_children = kids;
             root_bytes = bytes;
